@@ -15,6 +15,8 @@ import (
 	"encoding/json"
 	"errors"
 	"fmt"
+	sgbucket "github.com/couchbase/sg-bucket"
+	"os"
 	"sort"
 	"strings"
 	"sync"
@@ -60,11 +62,22 @@ type c15Conn struct {
 	node                     string
 	dead                     bool
 	noCrash                  bool
+	// a slow node: at its stallAt-th store operation of the phase the node stops until released reports true
+	stepNo, stallAt int
+	released        func() bool
+	Stalls          *int
 }
 
 func (c *c15Conn) step(op, key string, write bool) (apply bool, after func(), err error) {
 	if c.dead {
 		return false, func() {}, errC15NodeDown
+	}
+	c.stepNo++
+	if c.stallAt > 0 && c.stepNo == c.stallAt && c.released != nil && !c.released() {
+		if c.Stalls != nil {
+			*c.Stalls++
+		}
+		c.sim.Park(&verifsim.ParkPoint{Kind: "kv-stall", Op: op, Key: key, Class: c15Class(key), Ready: c.released})
 	}
 	pp := &verifsim.ParkPoint{Kind: "kv", Op: op, Key: key, Class: c15Class(key)}
 	if !c.noCrash {
@@ -74,10 +87,12 @@ func (c *c15Conn) step(op, key string, write bool) (apply bool, after func(), er
 			pp.Alts = []string{c15CrashPre}
 		}
 	}
-	alt := c.sim.Park(pp)
 	// every store operation takes a little (simulated) time: with a frozen clock, retry loops that compare elapsed
-	// time with "greater than" would never see their deadline pass
+	// time with "greater than" would never see their deadline pass.  The time passes before the park point, so that
+	// the operation takes effect at once when the scheduler releases it (two operations released at the same
+	// simulated instant would otherwise wake from equal sleeps in an order nobody decides).
 	time.Sleep(200 * time.Microsecond)
+	alt := c.sim.Park(pp)
 	switch alt {
 	case c15CrashPre:
 		c.dead = true
@@ -194,7 +209,7 @@ func (c *c15Conn) WriteMetadataDocument(ctx context.Context, bucket, key string,
 		return 0, base.ErrNotFound
 	}
 	if cur != cas {
-		return 0, base.ErrCasFailureShouldRetry
+		return 0, sgbucket.CasMismatchErr{Expected: cas, Actual: cur}
 	}
 	return c.put(key, raw), nil
 }
@@ -212,7 +227,7 @@ func (c *c15Conn) TouchMetadataDocument(ctx context.Context, bucket, key string,
 		return 0, base.ErrNotFound
 	}
 	if cur != cas {
-		return 0, base.ErrCasFailureShouldRetry
+		return 0, sgbucket.CasMismatchErr{Expected: cas, Actual: cur}
 	}
 	var m map[string]any
 	if err := base.JSONUnmarshal(c.st.docs[key], &m); err != nil {
@@ -236,7 +251,7 @@ func (c *c15Conn) DeleteMetadataDocument(ctx context.Context, bucket, key string
 		return base.ErrNotFound
 	}
 	if cas != 0 && cur != cas {
-		return base.ErrCasFailureShouldRetry
+		return sgbucket.CasMismatchErr{Expected: cas, Actual: cur}
 	}
 	delete(c.st.docs, key)
 	delete(c.st.cas, key)
@@ -298,6 +313,9 @@ type c15Plan struct {
 	Dry    bool            `json:"dry,omitempty"`
 	// CrashPhase is the phase whose first operation the enumerated crash points address (enumerated plans)
 	CrashPhase int `json:"crash_phase,omitempty"`
+	// Stall, per phase: the node of the phase's first operation stops at its Stall-th store operation until the other
+	// operations of the phase have returned (0 = no stall)
+	Stall []int `json:"stall,omitempty"`
 }
 
 var c15DBs = []string{"db1", "db2", "db3"}
@@ -360,6 +378,23 @@ func c15Enumerate(seed uint64, tier string) []json.RawMessage {
 		prefixes, maxIdx = 300, 24
 	}
 	var out []json.RawMessage
+	// directed: an update that drops a collection is interrupted at every step; before anybody repairs the state the
+	// other node creates a database on the dropped collection
+	{
+		phases := [][]c15Op{
+			{{Kind: "create", Node: 1, DB: "db1", Colls: []string{"c1"}}},
+			{{Kind: "update", Node: 0, DB: "db1", Colls: []string{"c2"}}},
+			{{Kind: "create", Node: 1, DB: "db2", Colls: []string{"c1"}}},
+		}
+		noLoad := []bool{false, true, false}
+		out = append(out, mustJSON(c15Plan{Nodes: 2, Phases: phases, NoLoad: noLoad, CrashPhase: 1, Dry: true, Cfg: c15CfgFor(nil)}))
+		for i := 0; i < maxIdx; i++ {
+			for _, alt := range []string{c15CrashPre, c15CrashAfter} {
+				f := [][2]any{{i, alt}}
+				out = append(out, mustJSON(c15Plan{Nodes: 2, Phases: phases, NoLoad: noLoad, CrashPhase: 1, Faults: f, Cfg: c15CfgFor(f)}))
+			}
+		}
+	}
 	for pi := 0; pi < prefixes; pi++ {
 		var phases [][]c15Op
 		for k := 0; k < r.Range(0, 3); k++ {
@@ -428,6 +463,27 @@ func c15Generate(seed uint64, tier string, index int) json.RawMessage {
 		}
 		p.Phases = append(p.Phases, phase)
 		p.NoLoad = append(p.NoLoad, r.Chance(400))
+	}
+	if index%8 == 3 {
+		// directed: two nodes race updates of the same database (one of them meets a CAS mismatch on the registry and
+		// retries on top of the other's result); afterwards every collection must still be claimable
+		p.Phases = [][]c15Op{
+			{{Kind: "create", Node: 0, DB: "db1", Colls: []string{"c1", "c2"}}},
+			{{Kind: "update", Node: 0, DB: "db1", Colls: []string{"c1"}}, {Kind: "update", Node: 1, DB: "db1", Colls: []string{"c1", "c2", "c3"}}},
+		}
+		p.NoLoad = []bool{false, false}
+		p.Stall = []int{0, r.Range(1, 6)}
+		if r.Chance(500) {
+			p.Phases[1][0], p.Phases[1][1] = p.Phases[1][1], p.Phases[1][0]
+		}
+	} else {
+		for _, phase := range p.Phases {
+			st := 0
+			if len(phase) > 1 && r.Chance(300) {
+				st = r.Range(1, 8)
+			}
+			p.Stall = append(p.Stall, st)
+		}
 	}
 	if index%2 == 1 {
 		p.Cfg.MaxFaults = r.Range(1, 2)
@@ -645,10 +701,22 @@ func c15Run(env *verifsim.Env, raw json.RawMessage) *verifsim.Violation {
 
 	crashedUpdate := map[string]bool{}
 	var pendingOuts []outcome
+	stalls := 0
+	defer func() { env.Sim.CountFault("stall", stalls) }()
 	for pi, phase := range p.Phases {
 		lastPhase := pi == len(p.Phases)-1
 		before := st.snapshot()
 		outs := make([]outcome, len(phase))
+		othersDone := 0
+		for i := range nodes {
+			nodes[i].conn.stepNo, nodes[i].conn.stallAt, nodes[i].conn.released = 0, 0, nil
+		}
+		if pi < len(p.Stall) && p.Stall[pi] > 0 && len(phase) > 1 {
+			c := nodes[phase[0].Node].conn
+			c.stallAt, c.Stalls = p.Stall[pi], &stalls
+			nOthers := len(phase) - 1
+			c.released = func() bool { return othersDone >= nOthers }
+		}
 		for oi, op := range phase {
 			oi, op := oi, op
 			name := fmt.Sprintf("p%d.%d", pi, oi)
@@ -662,10 +730,18 @@ func c15Run(env *verifsim.Env, raw json.RawMessage) *verifsim.Violation {
 			if enumerated {
 				nodes[op.Node].conn.noCrash = !(pi == p.CrashPhase && oi == 0)
 			}
-			s.Spawn(name, fmt.Sprintf("n%d", op.Node), func(t *verifsim.Task) { outs[oi] = runOp(t, op) })
+			s.Spawn(name, fmt.Sprintf("n%d", op.Node), func(t *verifsim.Task) {
+				outs[oi] = runOp(t, op)
+				if oi > 0 {
+					othersDone++
+				}
+			})
 		}
 		if err := s.DriveAll(); err != nil {
 			return infraOrBudget(err)
+		}
+		if os.Getenv("VERIF_C15_DEBUG") != "" && len(p.Stall) > pi && p.Stall[pi] > 0 {
+			fmt.Fprintf(os.Stderr, "C15DBG phase %d stall=%d stalls=%d outs=%s registry=%s\n", pi, p.Stall[pi], stalls, c15Describe(outs), st.snapshot()[base.SGRegistryKey])
 		}
 		// a rejected change leaves everything as it was (single, uncrashed operation)
 		if len(phase) == 1 && outs[0].err != nil && !outs[0].crashed {
@@ -718,75 +794,79 @@ func c15Run(env *verifsim.Env, raw json.RawMessage) *verifsim.Violation {
 			live = i
 		}
 	}
-	for liveRound, db := range append(append([]string{}, c15DBs...), c15DBs...) {
-		var lastErr error
-		ok := false
-		var final outcome
-		for attempt := 0; attempt < 3 && !ok; attempt++ {
-			op := c15Op{Kind: "update", Node: live, DB: db, Colls: nil}
-			if acked[db] == "" {
-				op.Kind = "create"
-			}
-			// pick collections nobody else owns
-			used := map[string]bool{}
-			for other, v := range acked {
-				if other != db && v != "" {
-					for _, c := range strings.Split(generated[v].colls, ",") {
-						used[c] = true
-					}
+	// Every database must be able to claim every collection that no loaded database owns.  Databases the history
+	// touched least recently go first: a change of a database repairs what an earlier change of the same database left
+	// behind, and must not hide it from the others.
+	lastTouch := map[string]int{}
+	for pi, phase := range p.Phases {
+		for _, op := range phase {
+			lastTouch[op.DB] = pi + 1
+		}
+	}
+	order := append([]string{}, c15DBs...)
+	sort.SliceStable(order, func(i, j int) bool { return lastTouch[order[i]] < lastTouch[order[j]] })
+	probeNo := 0
+	for _, db := range order {
+		used := map[string]bool{}
+		for other, v := range acked {
+			if other != db && v != "" {
+				for _, c := range strings.Split(generated[v].colls, ",") {
+					used[c] = true
 				}
-			}
-			var free []string
-			for _, c := range c15Colls {
-				if !used[c] {
-					free = append(free, c)
-				}
-			}
-			if len(free) > 0 {
-				op.Colls = []string{free[(attempt+liveRound)%len(free)]}
-			}
-			if len(op.Colls) == 0 {
-				ok = true // no free collection: nothing to demand
-				break
-			}
-			var out outcome
-			nodes[live].conn.noCrash = true
-			s.Spawn(fmt.Sprintf("live%d.%s.%d", liveRound, db, attempt), "n", func(t *verifsim.Task) { out = runOp(t, op) })
-			if err := s.DriveAll(); err != nil {
-				return infraOrBudget(err)
-			}
-			nodes[live].conn.noCrash = false
-			lastErr = out.err
-			if out.err == nil {
-				ok = true
-				final = out
 			}
 		}
-		if !ok {
-			v := verifsim.Vf("C15", "stuck", "after the history, database %s cannot be created / updated on a live node in three attempts: %v", db, lastErr)
-			// recorded finding: a node that dies after writing the new configuration and before the last registry write
-			// leaves previous_version in the registry; loads see matching versions and nobody removes it
-			var reg GatewayRegistry
-			snap := st.snapshot()
-			if rawReg, ok := snap[base.SGRegistryKey]; ok {
-				_ = base.JSONUnmarshal([]byte(rawReg), &reg)
+		for _, c := range c15Colls {
+			if used[c] {
+				continue
 			}
-			if g := reg.ConfigGroups[c15Group]; g != nil {
-				for name, rdb := range g.Databases {
-					if rdb.PreviousVersion == nil {
-						continue
-					}
-					var cfg DatabaseConfig
-					if rawCfg, ok := snap[PersistentConfigKey(ctx, c15Group, name)]; ok && base.JSONUnmarshal([]byte(rawCfg), &cfg) == nil && cfg.Version == rdb.Version && crashedUpdate[name] {
-						v.Key = "previous-version-left-by-crash-before-finalize"
-					}
+			var lastErr error
+			ok := false
+			var final outcome
+			for attempt := 0; attempt < 3 && !ok; attempt++ {
+				op := c15Op{Kind: "update", Node: live, DB: db, Colls: []string{c}}
+				if acked[db] == "" {
+					op.Kind = "create"
+				}
+				var out outcome
+				nodes[live].conn.noCrash = true
+				probeNo++
+				s.Spawn(fmt.Sprintf("live%d.%s.%s", probeNo, db, c), "n", func(t *verifsim.Task) { out = runOp(t, op) })
+				if err := s.DriveAll(); err != nil {
+					return infraOrBudget(err)
+				}
+				nodes[live].conn.noCrash = false
+				lastErr = out.err
+				if out.err == nil {
+					ok = true
+					final = out
 				}
 			}
-			return v
-		}
-		if final.version != "" {
-			if v := judge("after the final change of "+db, []outcome{final}); v != nil {
+			if !ok {
+				v := verifsim.Vf("C15", "stuck", "after the history, database %s cannot claim collection %s (owned by no database) on a live node in three attempts: %v", db, c, lastErr)
+				// recorded finding: a node that dies after writing the new configuration and before the last registry write
+				// leaves previous_version in the registry; loads see matching versions and nobody removes it
+				var reg GatewayRegistry
+				snap := st.snapshot()
+				if rawReg, ok := snap[base.SGRegistryKey]; ok {
+					_ = base.JSONUnmarshal([]byte(rawReg), &reg)
+				}
+				if g := reg.ConfigGroups[c15Group]; g != nil {
+					for name, rdb := range g.Databases {
+						if rdb.PreviousVersion == nil {
+							continue
+						}
+						var cfg DatabaseConfig
+						if rawCfg, ok := snap[PersistentConfigKey(ctx, c15Group, name)]; ok && base.JSONUnmarshal([]byte(rawCfg), &cfg) == nil && cfg.Version == rdb.Version && crashedUpdate[name] {
+							v.Key = "previous-version-left-by-crash-before-finalize"
+						}
+					}
+				}
 				return v
+			}
+			if final.version != "" {
+				if v := judge("after the final change of "+db, []outcome{final}); v != nil {
+					return v
+				}
 			}
 		}
 	}
